@@ -262,6 +262,39 @@ class Unit:
         # loops
         loops = loops or {}
         found = find_loops(body)
+        if any(isinstance(k, str) for k in loops):
+            # loops addressed by a SIGNATURE (a statement their body must contain) instead of an ordinal: survives added /
+            # removed / merged loops.  A loop matched by several signatures gets the union of their clauses.
+            by_ord = {}
+            for key, spec in loops.items():
+                if isinstance(key, int):
+                    by_ord.setdefault(key, []).append(spec)
+                    continue
+                hits = []
+                for o, (kwpos, bpos, kw) in enumerate(found):
+                    end = match_bracket(body, bpos, '{', '}')
+                    if key in body[bpos:end]:
+                        hits.append((end - bpos, o))
+                if not hits:
+                    if spec.get('opt'):
+                        continue
+                    raise LostAnchor('%s: no loop contains %r' % (qname, key))
+                hits.sort()
+                # innermost loop containing the signature; two disjoint loops with the same signature are ambiguous
+                if len(hits) > 1 and not all(found[hits[0][1]][0] >= found[o][0] and hits[0][0] <= sz for sz, o in hits[1:]):
+                    raise LostAnchor('%s: loop signature %r is ambiguous' % (qname, key))
+                by_ord.setdefault(hits[0][1], []).append(spec)
+            merged = {}
+            for o, specs in by_ord.items():
+                m = dict(inv=[], inv_eb=[], ens=[], dec=None)
+                for sp in specs:
+                    for k in ('inv', 'inv_eb', 'ens'):
+                        for c in _clauses(sp.get(k)):
+                            if all(c.text != d.text for d in m[k]):
+                                m[k].append(c)
+                    m['dec'] = m['dec'] or sp.get('dec')
+                merged[o] = m
+            loops = merged
         if loops and max(loops) >= len(found):
             raise LostAnchor('%s: loop #%d not found (%d loops)' % (qname, max(loops), len(found)))
         # insert from the back so indices stay valid
